@@ -17,7 +17,15 @@ Ops == {"parse", "split", "format_reindent", "format_python", "format_case", "ba
         \* a failing call whose failing statement is not the last one (the generator dies at a mid-stream yield)
         "recursion_error_mid",
         \* calls drawn from a generated pool (SqlGen programs with comments in the gaps): the replay picks the member
-        "pool_parse", "pool_split", "pool_strip_cw", "pool_ops_cw", "pool_reindent", "pool_case", "pool_aligned"}
+        "pool_parse", "pool_split", "pool_strip_cw", "pool_ops_cw", "pool_reindent", "pool_case", "pool_aligned",
+        \* the caller edits a returned tree in place (filters do; insert_before / token.value = ... are public API)
+        "mutate_result",
+        \* byte input that is not valid UTF-8 and carries no encoding (read as Latin-1, as documented)
+        "bytes_nonutf8",
+        \* two token streams alive at once, consumed in lock-step (zip of two parsestream() generators)
+        "interleave_streams",
+        \* a call that makes the lexer see very many distinct words
+        "many_words"}
 
 VARIABLES hist, cfg, done
 vars == <<hist, cfg, done>>
